@@ -128,7 +128,7 @@ func main() {
 		add(q, "exhaustive")
 	}
 	// generated: rewrite-precondition-biased templates filled with random sub-programs
-	n := ctx.N(2500, 40000)
+	n := ctx.N(2500, 24000)
 	for i := 0; i < n; i++ {
 		g := jqgen.NewTyped(r, r.Range(0, 3))
 		g2 := jqgen.New(r, r.Range(0, 2))
@@ -232,8 +232,19 @@ func main() {
 		ins := inputs
 		if p.kind == "corpus" || !ctx.Thorough {
 			ins = []any{common.Pick(r, inputs), common.Pick(r, inputs), inputs[0]}
+		} else if len(inputs) > 6 {
+			// thorough: six inputs per program (all of them made the tier run for hours)
+			ins = []any{inputs[0]}
+			for k := 0; k < 5; k++ {
+				ins = append(ins, common.Pick(r, inputs))
+			}
 		}
+		stops := common.MemStops
 		for _, in := range ins {
+			if common.MemStops > stops {
+				orc.Distribution["skipped:memory-hungry-program"]++
+				break // this program blows the heap up: its other inputs and variants would too
+			}
 			ref := common.RunCode(base, common.DeepCopy(in), budget, maxOuts)
 			orc.Cases++
 			if ref.Panic != "" {
@@ -246,6 +257,9 @@ func main() {
 			}
 			rc := common.CanonOutcome(ref)
 			for vi, c := range variants {
+				if common.MemStops > stops {
+					break
+				}
 				o := common.RunCode(c, common.DeepCopy(in), budget*4, maxOuts)
 				oc := common.CanonOutcome(o)
 				if o.Budget && o.Panic == "" {
@@ -492,7 +506,7 @@ func enumerate(thorough bool, r *common.Rand) []string {
 		}
 	}
 	out := append([]string{}, l2...)
-	keep := func() bool { return thorough || r.Chance(1, 8) }
+	keep := func() bool { return thorough && r.Chance(3, 4) || r.Chance(1, 8) }
 	for _, u := range un {
 		for _, a := range l2 {
 			if keep() {
